@@ -208,8 +208,8 @@ void from_float(sink& out, std::uint64_t salt)
     std::vector<Fl> xs;
     Fl mx = static_cast<Fl>(std::numeric_limits<T>::max());
     int maxe = static_cast<int>(sizeof(T) * 8);
-    for (int e = -(thorough() ? 140 : 40); e <= maxe; ++e) {
-        int steps = thorough() ? 256 : 8;
+    for (int e = -(thorough() ? 100 : 40); e <= maxe; ++e) {
+        int steps = thorough() ? 32 : 8;      // (every rejected event costs an evaluation of the as-coded search)
         for (int m = 0; m < steps; ++m) {
             Fl x = std::ldexp(static_cast<Fl>(1) + static_cast<Fl>(m) / static_cast<Fl>(steps), e);
             xs.push_back(x);
@@ -230,7 +230,7 @@ void from_float(sink& out, std::uint64_t salt)
         xs.push_back(std::nextafter(mx, static_cast<Fl>(0)));
     }
     rng r(salt);
-    for (int k = 0; k < (thorough() ? 20000 : 300); ++k) {
+    for (int k = 0; k < (thorough() ? 3000 : 300); ++k) {
         Fl m = static_cast<Fl>(r.g() >> 11) / static_cast<Fl>(1ULL << 53);
         xs.push_back(std::ldexp(m, static_cast<int>(r.g() % static_cast<unsigned>(maxe + 20)) - 20) * ((r.g() & 1) ? 1 : -1));
     }
